@@ -191,6 +191,10 @@ def setup_accounts(root):
         "frank": "argon2$argon2id$v=19$m=102400,t=2,p=8$c29tZXNhbHQ$RdescudvJCsgt3ub+b+dWRWJTmaaJObG",
         "gina": sc.encode("", sc.salt()),  # the account's password is the empty string hash of ""
     }
+    # work factors other than this server's default (hashes written by another version of the companion tools)
+    pb = get_hasher("pbkdf2_sha256")
+    specs["hank"] = pb.encode(PW, pb.salt(), pb.iterations + 1000)
+    specs["ivan"] = pb.encode(PW, pb.salt(), 1000)
     for u, hsh in specs.items():
         d = os.path.join(root, "mail-" + u)
         os.makedirs(os.path.join(d, "inbox"), exist_ok=True)
@@ -415,7 +419,7 @@ async def throttle_e2e(loop, ctx):
             T.BAD_USER_AUTHS.clear()
             T.BAD_IP_AUTHS.clear()
             auto = Auto(T.MAX_USER_ATTEMPTS, T.MAX_ADDR_ATTEMPTS, T.PURGE_TIME)
-            users = rnd.choice([["alice"], ["alice", "erin"]])
+            users = rnd.choice([["alice"], ["alice", "erin"], ["alice"], ["alice", "erin"], ["hank"], ["ivan", "hank"], ["alice", "hank"]])
             addrs = rnd.choice([["10.9.0.1"], ["10.9.0.1", "10.9.0.2"]])
             trace = []
             bad = None
@@ -424,7 +428,9 @@ async def throttle_e2e(loop, ctx):
                 gap = rnd.choice([1.25, 1.25, 1.25, 3.5, 3.5, 58.5, 61.5, 121.5])
                 await asyncio.sleep(gap)
                 u, a = rnd.choice(users), rnd.choice(addrs)
-                ok = rnd.random() < 0.15 and u == "alice"
+                ok = rnd.random() < 0.15 and u in ("alice", "hank", "ivan")
+                if u in ("hank", "ivan"):
+                    counts["e2e_attempts_on_other_work_factor"] += 1
                 proto = rnd.choice(["imap", "imap", "pop3"])
                 t = loop.time()
                 if auto.boundary(u, a, t):
@@ -440,7 +446,11 @@ async def throttle_e2e(loop, ctx):
                         connected.append(user.username)
 
                     si.get_and_connect_subprocess = rec
-                    await si.message(('x LOGIN %s "%s"' % (u, PW if ok else "nope")).encode())
+                    try:
+                        await si.message(('x LOGIN %s "%s"' % (u, PW if ok else "nope")).encode())
+                    except Exception as e:  # the real loops answer BAD / hang up; what matters here is the count
+                        counts["e2e_login_raised"] += 1
+                        cw.buf += f"[raised {type(e).__name__}]".encode()
                     out = bytes(cw.buf).decode("latin-1")
                     got = "AUTHENTICATED" if connected else ("REFUSED" if "Too many" in out else "REJECTED")
                 else:
@@ -451,8 +461,12 @@ async def throttle_e2e(loop, ctx):
                         connected.append(user.username)
 
                     si.get_and_connect_subprocess = rec2
-                    await si.message(("USER " + u).encode())
-                    await si.message(("PASS " + (PW if ok else "nope")).encode())
+                    try:
+                        await si.message(("USER " + u).encode())
+                        await si.message(("PASS " + (PW if ok else "nope")).encode())
+                    except Exception as e:
+                        counts["e2e_login_raised"] += 1
+                        cw.buf += f"[raised {type(e).__name__}]".encode()
                     out = bytes(cw.buf).decode("latin-1")
                     got = "AUTHENTICATED" if connected else ("REFUSED" if "too many" in out else "REJECTED")
                 counts["e2e_attempts"] += 1
